@@ -126,6 +126,26 @@ def table_cases(name, tier):
         for x, y, z in itertools.product(A, repeat=3):
             for o in ("and", "or"):
                 yield {"a": [o, P(x), P(y)], "b": P(z)}
+    elif name == "post-bound-pairs":
+        # a post-release literal as a bound next to its neighbours: the union / range renderings (!=X.Y.*, ~=) compare
+        # release segments only, so `< "3.8.0.post1" or >= "3.9"` must not become `!= "3.8.*"` (seeded change C02_h).
+        # Pairs in which [lo, X.postN) is a non-empty range are the known finding S4a and are counted as excluded.
+        for var in ("python_full_version", "python_version"):
+            posts = ["3.8.0.post1", "3.8.post1", "3.9.0.post1", "3.8.1.post2"][: 3 if tier == "quick" else 4]
+            near = ["3.8", "3.8.0", "3.9", "3.9.0", "3.8.1", "3.8.2", "3.10", "3.7"][: 6 if tier == "quick" else 8]
+            PA = [{"var": var, "op": op, "val": v, "rev": False, "style": 0} for op in M.CMP_OPS for v in posts]
+            NA = [{"var": var, "op": op, "val": v, "rev": False, "style": 0} for op in M.CMP_OPS + ["~="] for v in near]
+            NA += [{"var": var, "op": op, "val": v + ".*", "rev": False, "style": 0} for op in ("==", "!=") for v in ("3.8", "3.9")]
+            for x, y in itertools.product(PA, NA):
+                yield {"a": P(x), "b": P(y)}
+                yield {"a": P(y), "b": P(x)}
+            for x, y in itertools.product(PA, repeat=2):
+                yield {"a": P(x), "b": P(y)}
+            # the post-release bound appears only after an earlier merge: (x o y) then z
+            lohi = [(l, h) for l in NA if l["op"] in ("<", "<=") for h in NA if h["op"] in (">", ">=")][:: 5 if tier == "quick" else 1]
+            for (l, h), z in itertools.product(lohi, [p for p in PA if p["op"] in ("<", "<=", ">", ">=")]):
+                for o in ("and", "or"):
+                    yield {"a": [o, P(l), P(h)], "b": P(z)}
     elif name == "str-group-pairs":
         # every pair of ==-groups / !=-groups (and single atoms) on one string variable: group x group
         lits = ["linux", "linux2", "win32", "darwin"] if tier == "quick" else ["linux", "linux2", "win32", "darwin", "win"]
@@ -301,7 +321,7 @@ def tasks(tier, seed):
     shards = 48 if tier == "quick" else 192
     # slow, straggler-prone shards first
     t = [(MOD, "hyp", (n // shards, seed * 1_000_003 + i, tier)) for i in range(shards)]
-    for name, nsh in (("py-pairs", 32 if tier == "quick" else 64), ("rel-pairs", 4), ("str-triples", 32), ("extra-triples", 16), ("mixed-py-triples", 16), ("wide-with-neutral", 16), ("str-group-pairs", 8), ("consensus-py", 16), ("shared-child-unions", 16), ("factored-pairs", 4), ("factored-triples", 8)):
+    for name, nsh in (("py-pairs", 32 if tier == "quick" else 64), ("rel-pairs", 4), ("str-triples", 32), ("extra-triples", 16), ("mixed-py-triples", 16), ("wide-with-neutral", 16), ("str-group-pairs", 8), ("consensus-py", 16), ("shared-child-unions", 16), ("factored-pairs", 4), ("factored-triples", 8), ("post-bound-pairs", 16)):
         for sh in range(nsh):
             t.append((MOD, "tables", (name, tier, sh, nsh)))
     return t
